@@ -105,7 +105,7 @@ ADD = {
  "C05": ("; NO-REORDER; CONCAT-OFFSET; IDENTITY-RETURN / KIND-SET", " The mirrored parts reach the constructor unpermuted (NO-REORDER). Reverse of a contiguous kind always recomputes, also for a whole-sequence range whose markers must swap (IDENTITY-RETURN); Locate's concatenation offsets later pieces by the residues accumulated so far (CONCAT-OFFSET)."),
  "C06": ("; PRINT-TOTAL shape rule on Ranged.String; PARSE-REJECT", " Ranged.String writes start, `..` and end on every path, the markers under their own flags (PRINT-TOTAL). The hand-written parsers reject nothing the printers can print: value-dependent rejections exist only in parseBetween (PARSE-REJECT)."),
  "C07": ("; OVERFLOW side condition of the non-negativity analysis (boundedness of input numbers in size arithmetic); ORIGIN-LINE-END / ORIGIN-END path rules; REQ-BUF; MAP-INIT (dominating initialisation of map-typed fields)", " Size arithmetic on numbers read from the input is dominated by an upper-bound guard (OVERFLOW; a LOCUS length near 2^63 panicked: repaired); a record with more residues than its LOCUS line declares is an error on the fast and the slow path (ORIGIN-LINE-END, ORIGIN-END; it was read short: repaired); no look-ahead through State.Dump (REQ-BUF). The clause 'inconsistent LOCUS/ORIGIN lengths are rejected' is now decided structurally in both directions. No element store into a map-typed record field that may still be nil (MAP-INIT)."),
- "C08": ("; DEDUP-EXACT; CONCAT-OFFSET; NO-EARLY-EXIT on Regions.Resize", " gts extract drops a region only when it equals an earlier one in full (DEDUP-EXACT). Regions.Resize has no exit before the offset walks (NO-EARLY-EXIT)."),
+ "C08": ("; DEDUP-EXACT; CONCAT-OFFSET; NO-EARLY-EXIT on Regions.Resize; LOC-WHOLE", " gts extract drops a region only when it equals an earlier one in full (DEDUP-EXACT). Regions.Resize has no exit before the offset walks (NO-EARLY-EXIT). A locator argument is taken as a bare location only when the location grammar consumes all of it (LOC-WHOLE)."),
  "C10": ("; who-may-call rule on asComplete; NORMALISE-FIRST; IDENTITY-RETURN / KIND-SET", " No edit other than slicing clears partial markers (COMPLETE-ONLY-SLICE)."),
  "C11": ("; SHALLOW-CACHE on the reviewed mutator (*Origin).Bytes", " The reviewed exception is narrowed: (*Origin).Bytes may rebind its receiver's fields but not store into the block they reference (SHALLOW-CACHE)."),
  "C12": ("; UNIQUE-CUTS and EMIT-ALL on gts split; KIND-SET, NO-EARLY-EXIT on Repair, FLUSH-ALL", " gts split cuts at distinct positions and writes every piece (UNIQUE-CUTS, EMIT-ALL), without which split | join | repair cannot restore the table. Repair has no shortcut exit before its grouping pass (NO-EARLY-EXIT); a fragment of one residue stays a (partial) range (KIND-SET); split/repair flush what they write (FLUSH-ALL)."),
